@@ -6,7 +6,7 @@
  * (closed under parent), RB colours / AVL balance factors (constrained by the representation
  * invariant).  Keys are order tokens: skeleton position i carries rank 2*inorder(i) (WLOG for a
  * total-order comparator: only comparison outcomes are observable; every (shape, relative position
- * of the operation key) pair is realised by some rank KPOS in 1..2N+1 -- odd = gap, even = node).
+ * of the operation key) pair is realised by some rank in 1..2N+1 -- odd = gap, even = skeleton node).
  * Key/value *identities* are distinct tokens (rank<<8 | id): the library must never dereference
  * them (integer addresses: any access is a CBMC pointer violation).
  *
@@ -16,9 +16,15 @@
  * is present iff HIT; everything else stays symbolic.  This is a complete case split (every search
  * ends somewhere) and makes the search path concrete for the symbolic executor.
  *
- * compile-time parameters (runner): TT 0=BST 1=RB 2=AVL, H, OP, PPOS, HIT,
+ * For removals of a stored key REMCASE also fixes the neighbourhood deciding which node is unlinked
+ * (see fixed_presence).  Without PPOS (cheap for BST only) insert = replace of an arbitrary stored key and
+ * remove = removal of an arbitrary absent key, position symbolic.
+ *
+ * compile-time parameters (runner): TT 0=BST 1=RB 2=AVL, H, OP (insert/remove/lookup/foreach/clear), PPOS, HIT, REMCASE,
  *   NEWMODE 0=p_tree_new 1=p_tree_new_with_data 2=p_tree_new_full(+notifiers),
- *   CHK_MAP / CHK_BAL / CHK_OWN assertion groups (C12 / C13 / C14). */
+ *   CMP_MAG n (comparator returns -n/0/n) or SYM_MAG (symbolic magnitude), FIXA(i) (optional: fixed colour / balance factor
+ *   of chosen positions), CHK_LOOKUP_AFTER (lookup of an arbitrary key after the step), FREE_AFTER (p_tree_free after the
+ *   step + exactly-once accounting), CHK_MAP / CHK_BAL / CHK_OWN assertion groups (C12 / C13 / C14). */
 #ifndef H
 #define H 3
 #endif
